@@ -1,6 +1,374 @@
 package main
 
-import "cvh/lib"
+// Direct monitor of C01: every program the real checker accepts is executed by the interpreter and by
+// the VM; an internal / unexpected / defensive error or a Go panic is a finding, reported with the
+// shrunk program as replay. Independent of the Coq model.
+//
+//	direct.go           orchestration, statistics, reporting
+//	direct_classify.go  outcome classes, failure keys (syntactic detectors on the shrunk program)
+//	direct_scenario.go  scenarios, execution, corpus, shrinker
+//	direct_types.go     type universe of the generator
+//	direct_gen*.go      type-directed generators (scripts, resources, contracts/transactions)
+//	direct_mutate.go    mutation operators on accepted programs
 
-// RunDirect is the direct no-internal-error monitor (see main.go). STUB - to be implemented.
-func RunDirect(rng *lib.Rng, tier string, sum *lib.Summary) {}
+import (
+	"fmt"
+	"hash/fnv"
+	"os"
+	"sort"
+	"strings"
+
+	"cvh/lib"
+)
+
+type direct struct {
+	rng  *lib.Rng
+	sum  *lib.Summary
+	seen map[uint64]bool
+
+	generated, accepted, rejected int
+	mutTried, mutAccepted         int
+	executions                    int
+	perKey                        map[string]int
+	reportedIndep                 map[string]bool
+	samples                       int
+	debug                         bool
+	rejectReasons                 map[string]int
+}
+
+func hashText(s string) uint64 {
+	h := fnv.New64a()
+	h.Write([]byte(s))
+	return h.Sum64()
+}
+
+// RunDirect is the direct no-internal-error monitor (see main.go).
+func RunDirect(rng *lib.Rng, tier string, sum *lib.Summary) {
+	d := &direct{rng: rng, sum: sum, seen: map[uint64]bool{}, perKey: map[string]int{},
+		reportedIndep: map[string]bool{}, rejectReasons: map[string]int{},
+		debug: os.Getenv("C01_DEBUG") != ""}
+	if sum.Distribution == nil {
+		sum.Distribution = map[string]int{}
+	}
+	// atree's validation dumps slabs to stdout when a check fails; keep the harness output clean
+	if devnull, err := os.OpenFile(os.DevNull, os.O_WRONLY, 0); err == nil {
+		saved := os.Stdout
+		os.Stdout = devnull
+		defer func() { os.Stdout = saved; devnull.Close() }()
+	}
+	d.runCorpus()
+
+	nScripts, nScen, mutPer := 260, 45, 3
+	if tier == "thorough" {
+		nScripts, nScen = nScripts*40, nScen*40
+	}
+	for i := 0; i < nScripts; i++ {
+		g := newGen(lib.NewRng(rng.U64()))
+		sc := g.script()
+		d.generated++
+		ok := d.process(sc)
+		if !ok {
+			continue
+		}
+		// mutants of accepted programs: kept when the real checker still accepts them
+		mr := lib.NewRng(rng.U64())
+		for m := 0; m < mutPer; m++ {
+			ms := mutate(mr, sc)
+			if ms == nil {
+				continue
+			}
+			d.mutTried++
+			if d.process(ms) {
+				d.mutAccepted++
+			}
+		}
+	}
+	for i := 0; i < nScen; i++ {
+		g := newGen(lib.NewRng(rng.U64()))
+		sc := g.scenario()
+		d.generated++
+		ok := d.process(sc)
+		if !ok {
+			continue
+		}
+		mr := lib.NewRng(rng.U64())
+		for m := 0; m < 2; m++ {
+			ms := mutate(mr, sc)
+			if ms == nil {
+				continue
+			}
+			d.mutTried++
+			if d.process(ms) {
+				d.mutAccepted++
+			}
+		}
+	}
+
+	sum.Evaluations += d.executions
+	sum.DistinctNontrivial += d.accepted
+	ratio := 0.0
+	if d.generated > 0 {
+		ratio = float64(d.accepted-d.mutAccepted) / float64(d.generated)
+	}
+	mratio := 0.0
+	if d.mutTried > 0 {
+		mratio = float64(d.mutAccepted) / float64(d.mutTried)
+	}
+	if sum.Extra == nil {
+		sum.Extra = map[string]any{}
+	}
+	sum.Extra["direct"] = map[string]any{
+		"generated":                 d.generated,
+		"accepted_generated":        d.accepted - d.mutAccepted,
+		"acceptance_ratio":          fmt.Sprintf("%.3f", ratio),
+		"mutants_tried":             d.mutTried,
+		"mutants_accepted":          d.mutAccepted,
+		"mutant_acceptance_ratio":   fmt.Sprintf("%.3f", mratio),
+		"accepted_distinct_total":   d.accepted,
+		"executions":                d.executions,
+		"failures_per_key":          d.perKey,
+		"checker_rejection_reasons": topN(d.rejectReasons, 12),
+	}
+}
+
+func topN(m map[string]int, n int) map[string]int {
+	type kv struct {
+		k string
+		v int
+	}
+	var xs []kv
+	for k, v := range m {
+		xs = append(xs, kv{k, v})
+	}
+	sort.Slice(xs, func(i, j int) bool {
+		if xs[i].v != xs[j].v {
+			return xs[i].v > xs[j].v
+		}
+		return xs[i].k < xs[j].k
+	})
+	out := map[string]int{}
+	for i, x := range xs {
+		if i >= n {
+			break
+		}
+		out[x.k] = x.v
+	}
+	return out
+}
+
+// runCorpus replays the minimized past failing cases first, so that known findings are reported on
+// every run independently of the seed.
+func (d *direct) runCorpus() {
+	scs, names := loadCorpus()
+	for i, sc := range scs {
+		i0 := i
+		d.sum.Count("direct:corpus:files")
+		engines := []bool{false, true}
+		switch sc.Engine {
+		case "interpreter":
+			engines = []bool{false}
+		case "vm":
+			engines = []bool{true}
+		}
+		reproduced := false
+		for _, vm := range engines {
+			res, f := runScenario(sc, vm)
+			d.executions += len(res)
+			if d.debug {
+				for i, r := range res {
+					fmt.Fprintf(os.Stderr, "corpus %s vm=%v step %d: class=%q %s\n", names[i0], vm, i, r.V.Class, trimTo(r.Err, 300))
+				}
+			}
+			if f < 0 {
+				continue
+			}
+			v := res[f].V
+			key := failureKey(v, engineName(vm), sc, f)
+			if key == sc.Key {
+				reproduced = true
+			}
+			d.report(key, v, vm, sc, sc, f, res[f].Err, "corpus/C01/"+names[i])
+		}
+		if reproduced {
+			d.sum.Count("direct:corpus:reproduced")
+		} else {
+			d.sum.Count("direct:corpus:not-reproduced")
+		}
+	}
+}
+
+// report records one failure (engine-independent keys once per run and program).
+func (d *direct) report(key string, v verdict, vm bool, shrunk, orig *Scenario, failing int, errText string, origin string) {
+	if engineIndependent(key) {
+		id := key + "|" + fmt.Sprint(hashText(orig.programText()))
+		if d.reportedIndep[id] {
+			return
+		}
+		d.reportedIndep[id] = true
+	}
+	d.perKey[key]++
+	d.sum.Count("direct:failure:" + v.Class)
+	if len(errText) > 600 {
+		errText = errText[:600]
+	}
+	replay := map[string]any{
+		"engine": engineName(vm),
+		"error":  errText,
+		"origin": origin,
+	}
+	if len(shrunk.Steps) == 1 && shrunk.Steps[0].Kind == "script" {
+		replay["program"] = shrunk.Steps[0].Code
+	} else {
+		replay["program"] = shrunk.Steps
+	}
+	if len(orig.Steps) == 1 && orig.Steps[0].Kind == "script" {
+		replay["original"] = orig.Steps[0].Code
+	} else {
+		replay["original"] = orig.Steps
+	}
+	if orig.Mutant != "" {
+		replay["mutation"] = orig.Mutant
+	}
+	what := fmt.Sprintf("checker-accepted program fails in the %s with %s (%s): %s", engineName(vm), v.Class, v.GoType, v.Msg)
+	if v.Frame != "" {
+		what += " [raised in " + v.Frame + "]"
+	}
+	d.sum.Fail(key, what, replay)
+}
+
+// process runs one generated program / scenario in both engines; returns whether the real checker
+// accepted it (all steps).
+func (d *direct) process(sc *Scenario) bool {
+	text := sc.programText()
+	h := hashText(text)
+	if d.seen[h] {
+		d.sum.Count("direct:duplicate")
+		return false
+	}
+	d.seen[h] = true
+
+	resI, fI := runScenario(sc, false)
+	d.executions += len(resI)
+	acceptedAll := true
+	for _, r := range resI {
+		if r.V.Class == "checker" || r.V.Class == "parse" {
+			acceptedAll = false
+			if d.debug {
+				fmt.Fprintf(os.Stderr, "---- REJECTED (%s) mutant=%q\n%s\n%s\n", r.V.Class, sc.Mutant, text, trimTo(r.Err, 1500))
+			}
+			if sc.Mutant == "" {
+				d.rejectReasons[rejectionReason(r.Err)]++
+			}
+		}
+	}
+	// a rejected single program is not in the property's domain (unless the checker itself crashed)
+	if !acceptedAll && fI < 0 && (len(sc.Steps) == 1 || sc.Mutant != "") {
+		d.rejected++
+		if sc.Mutant == "" {
+			d.sum.Count("direct:rejected:generated")
+		} else {
+			d.sum.Count("direct:rejected:mutant")
+		}
+		return false
+	}
+	resV, fV := runScenario(sc, true)
+	d.executions += len(resV)
+
+	if acceptedAll {
+		d.accepted++
+		kind := "script"
+		if len(sc.Steps) > 1 {
+			kind = "scenario"
+		}
+		if sc.Mutant != "" {
+			d.sum.Count("direct:accepted:mutant:" + kind)
+			d.sum.Count("direct:mutation:" + sc.Mutant)
+		} else {
+			d.sum.Count("direct:accepted:generated:" + kind)
+		}
+		for _, f := range sc.Features {
+			d.sum.Count("direct:feature:" + f)
+		}
+	} else {
+		d.rejected++
+		d.sum.Count("direct:rejected:scenario-step")
+	}
+	for _, x := range []struct {
+		res []stepResult
+		vm  bool
+	}{{resI, false}, {resV, true}} {
+		for i, r := range x.res {
+			cls := r.V.Class
+			if cls == "" {
+				cls = "ok"
+			}
+			d.sum.Count("direct:outcome:" + cls + ":" + engineName(x.vm))
+			if cls == "user" {
+				d.sum.Count("direct:usererror:" + r.V.GoType)
+			}
+			if d.debug && (cls == "external" || cls == "internal" || cls == "crash" || (cls == "user" && os.Getenv("C01_DEBUG") == "2")) {
+				fmt.Fprintf(os.Stderr, "---- OUTCOME %s engine=%s step %d\n%s\n%s\n", cls, engineName(x.vm), i, sc.Steps[i].Code, trimTo(r.Err, 1200))
+			}
+		}
+	}
+	if d.samples < 3 && acceptedAll && (d.samples == 0 || (d.samples == 1 && sc.Mutant != "") || (d.samples == 2 && len(sc.Steps) > 1)) {
+		d.samples++
+		d.sum.Sample(map[string]any{"leg": "direct", "steps": sc.Steps, "mutation": sc.Mutant,
+			"interpreter": lastClass(resI), "vm": lastClass(resV)})
+	}
+	if fI >= 0 {
+		d.fail(sc, false, resI, fI)
+	}
+	if fV >= 0 {
+		d.fail(sc, true, resV, fV)
+	}
+	return acceptedAll
+}
+
+func lastClass(res []stepResult) string {
+	if len(res) == 0 {
+		return ""
+	}
+	c := res[len(res)-1].V.Class
+	if c == "" {
+		return "ok"
+	}
+	return c
+}
+
+func trimTo(s string, n int) string {
+	if len(s) > n {
+		return s[:n]
+	}
+	return s
+}
+
+// rejectionReason extracts the first checker error message line (statistics on generator quality).
+func rejectionReason(errText string) string {
+	for _, l := range strings.Split(errText, "\n") {
+		l = strings.TrimSpace(l)
+		if strings.HasPrefix(l, "error:") {
+			return trimTo(normMsg(strings.TrimPrefix(l, "error:")), 70)
+		}
+	}
+	return "?"
+}
+
+// fail shrinks a failing program and reports it under its narrow key.
+func (d *direct) fail(sc *Scenario, vm bool, res []stepResult, f int) {
+	v := res[f].V
+	budget := 150
+	preKey := failureKey(v, engineName(vm), sc, f)
+	if d.perKey[preKey] >= 5 {
+		budget = 50
+	}
+	shrunk, runs := shrinkScenario(sc, vm, v, f, budget)
+	d.executions += runs
+	fs := len(shrunk.Steps) - 1
+	key := failureKey(v, engineName(vm), shrunk, fs)
+	origin := "generated"
+	if sc.Mutant != "" {
+		origin = "mutant:" + sc.Mutant
+	}
+	d.report(key, v, vm, shrunk, sc, fs, res[f].Err, origin)
+}
